@@ -40,6 +40,16 @@ Expected(entry, c, d) ==
         ELSE IF c = "list" \/ c \in {"csr", "coo"} \/ d # "f64" THEN "canon_or_refuse" ELSE "canon64")
   ELSE (IF d = "f32" THEN "canon32" ELSE "canon64")     \* estimators convert everything
 
+\* how a raw solve is started: cold, from consistent user coefficients, or from coefficients that sit on a
+\* column without any stored entry (the dense and the sparse kernels must treat it alike)
+Starts(e, k) == IF e = "solve" /\ k[1] \notin {"LBFGS", "FISTA"} /\ k[2] # "QuadraticSVC"
+                THEN {"cold", "warm", "warm_null_col"} ELSE {"cold"}
+
+\* "contrast": every column of X sums EXACTLY to zero (contrast / effect coding, signed incidence matrices): the
+\* constant vector is in the null space of X^T, which is where a power method with a deterministic start fails;
+\* only the solvers that take their step from a sparse spectral norm see a difference
+Designs(e, k) == IF e = "solve" /\ k[1] \in {"FISTA", "GroupBCD"} THEN {"generic", "contrast"} ELSE {"generic"}
+
 VARIABLES entry, comp, rep
 vars == <<entry, comp, rep>>
 Init == entry = "none" /\ comp = <<>> /\ rep = [c |-> "ndarray_F", d |-> "f64"]
@@ -49,7 +59,9 @@ Pick == /\ entry = "none"
              /\ (c = "list" => d = "f64")
              /\ \E k \in (IF e = "solve" THEN SolveComps ELSE IF e = "fit" THEN {<<f>> : f \in FitComps} ELSE {<<f>> : f \in PathComps}) :
                   /\ entry' = e /\ comp' = k /\ rep' = [c |-> c, d |-> d]
-                  /\ PrintT(ToJson([entry |-> e, comp |-> k, container |-> c, dtype |-> d,
-                                    expected |-> Expected(e, c, d)]))
+                  /\ \A st \in Starts(e, k) : \A dg \in Designs(e, k) :
+                       (dg = "generic" \/ st = "cold") =>
+                       PrintT(ToJson([entry |-> e, comp |-> k, container |-> c, dtype |-> d, start |-> st,
+                                      design |-> dg, expected |-> Expected(e, c, d)]))
 Spec == Init /\ [][Pick]_vars
 =============================================================================
